@@ -34,7 +34,7 @@ def mods():
     from sympde.topology import (Line, Square, Cube, ScalarFunctionSpace, VectorFunctionSpace, NormalVector, Union,
                                  Boundary)
     from sympde.topology.space import (ScalarFunction, VectorFunction, IndexedVectorFunction, Trace, trace_0, trace_1)
-    from sympde.calculus import grad, dot, Dn, div
+    from sympde.calculus import grad, dot, Dn, div, laplace
     from sympde.calculus.core import Dot, Grad
     from sympde.expr.equation import EssentialBC, Equation, find, BasicBoundaryCondition
     from sympde.expr import BilinearForm, LinearForm, integral
@@ -240,6 +240,15 @@ class System:
             opts += [('grad(u)', lambda: m['grad'](u)), ('2*dn', lambda: 2 * m['dot'](m['grad'](u), nn))]
             if self.is_vec(u):
                 opts += [('grad(u[0]).n', lambda: m['dot'](m['grad'](u[0]), nn))]
+            # the normal derivative of something that is NOT the unknown itself (added after seeded change
+            # C18-4, which classified by the mere presence of a Grad next to the normal)
+            if self.is_vec(u):
+                opts += [('grad(div(u)).n', lambda: m['dot'](m['grad'](m['div'](u)), nn))]
+            else:
+                if self.kind_of[id(u)] == 'undefined':
+                    opts += [('grad(laplace(u)).n', lambda: m['dot'](m['grad'](m['laplace'](u)), nn))]
+                opts += [('grad(grad(u)).n', lambda: m['dot'](m['grad'](m['grad'](u)), nn)),
+                         ('grad(u*u).n', lambda: m['dot'](m['grad'](u * u), nn))]
         return rng.choice(opts)
 
 
